@@ -206,10 +206,10 @@ Scan ==
 \* the blocked main loop receives the new version: an election round starts over; the leader goes on with the new peers
 \* (leader.rs:81-89); wait_for_heartbeat and follow() do not look at the channel
 Reload ==
-  /\ pend # <<>>
-  /\ CASE phase \in {"wait", "votes"} -> RestartRound
-       [] phase = "leader" -> TakeConfig /\ UNCHANGED <<phase, votes, mayVote, hbFrom, leader, net, proc, roundVoters, file, seen>>
-       [] OTHER -> FALSE
+  /\ pend # <<>> /\ phase \in {"wait", "votes", "leader"}
+  /\ IF phase = "leader"
+       THEN TakeConfig /\ UNCHANGED <<phase, votes, mayVote, hbFrom, leader, net, proc, roundVoters, file, seen>>
+       ELSE RestartRound
   /\ UNCHANGED <<inbox, announced, eused>>
 
 \* the leader's heartbeat (leader.rs:70-76)
